@@ -83,6 +83,8 @@ def concretize(c, tag=False):
                 body = f"literal({cpfx(cp)}{i}{ {'0': '0', 'a': '1', 'b': '2', 'z': '3', '': ''}[sfx(cp)] })"
             elif n == "pattern":
                 body = f"pattern({cpfx(cp)}_)" if not tag else f"pattern({cpfx(cp)}{ {'0': '10..=19', 'a': '20..=29', 'b': '30..=39', 'z': '40'}[sfx(cp)] })"
+            elif n == "type_hint_s":
+                body = f"type_hint({cpfx(cp)}as {{}})"
             elif n == "type_hint":
                 body = f"type_hint({cpfx(cp)}as ())" if not tag else f"type_hint({cpfx(cp)}{ {'0': 'as ()', 'a': 'as {}', 'b': 'as Unit', 'z': 'as ()'}[sfx(cp)] })"
             elif n == "where_clause":
@@ -96,7 +98,20 @@ def concretize(c, tag=False):
             ma.append(sp(x["own"], body))
         g = c.get("grouped", False)
         if enum:
-            fs.append(spell(ma, g) + f" V{i},")
+            payload = ""
+            vfs = (c.get("vf") or [])
+            if i <= len(vfs) and vfs[i - 1]:
+                pf = []
+                for j, fattrs in enumerate(vfs[i - 1], 1):
+                    fa = []
+                    for x in fattrs:
+                        fn, fcp = x["n"], x["cp"]
+                        fa.append({"map": f"#[map({cpfx(fcp)}n{i}_{j}{sfx(fcp)})]", "map_bare": "#[map]", "map_action": f"#[map({cpfx(fcp)}~.clone())]",
+                                   "ghost_d": f"#[ghost({cpfx(fcp)}{{gh{sfx(fcp)}()}})]", "where_clause": "#[where_clause(T: Clone)]",
+                                   "children": "#[children(p: P)]", "child_parents": "#[child_parents(p: P)]", "bogus": "#[o2o(bogus(x))]"}[fn])
+                    pf.append(" ".join(fa) + " V,")
+                payload = "(" + " ".join(pf) + ")"
+            fs.append(spell(ma, g) + f" V{i}{payload},")
         elif c["shape"] == "named":
             fs.append(spell(ma, g) + f" s{i}: V,")
         else:
@@ -126,6 +141,7 @@ RULES = [
     (r"Perhaps you meant '(\w+)'", lambda m: "misnamed/" + m.group(1)),
     (r"(?:Member|Struct) instruction '(\w+)' is not supported\.", lambda m: "unknown_instr/" + m.group(1)),
     (r"Instruction #\[(\w+)\(\.\.\.\)\] is not supported for this member", lambda m: "unsupported_member/" + m.group(1)),
+    (r"Member (\d+) of a variant V(\d+) should have member trait instruction with field name", lambda m: f"tuple_named_mismatch/V{m.group(2)}.{m.group(1)}"),
     (r"Member (\d+) should have member trait instruction with field name", lambda m: "tuple_named_mismatch/" + m.group(1)),
     (r"Member (\d+) should have an instruction that specifies corresponding field name", lambda m: "parent_field_unnamed/" + m.group(1)),
     (r"Field '(\w+)' should have type here", lambda m: "untyped_parent/" + m.group(1)),
@@ -150,7 +166,7 @@ def classify(msgs):
 
 def run(tier, seed):
     ctx = core.Ctx("C15", tier, seed, LEVEL)
-    cfgs = ["MC_C15_q1", "MC_C15_q2", "MC_C15_q3", "MC_C15_q4", "MC_C15_q5", "MC_C15_q6"]
+    cfgs = ["MC_C15_q1", "MC_C15_q2", "MC_C15_q3", "MC_C15_q4", "MC_C15_q5", "MC_C15_q6", "MC_C15_q7", "MC_C15_q8"]
     import streams
     cases = []
     for cfg in cfgs:
